@@ -289,7 +289,9 @@ m("C04", "proof",
   "Likewise the SENDER (C04_source_silent_peer_idle_after_2N, with C04_source_limit_fault_cancels): N-1 identical "
   "copies of the EOF, the N-th expiry cancels (one EOF with condition Positive ACK Limit Reached, same size field "
   "and same checksum - the bytes sent have not changed), N-1 identical copies of that PDU, the N-th expiry "
-  "abandons: idle.",
+  "abandons: idle. Half-silent link at the sender: a NAK served while the EOF awaits its ACK is not progress - "
+  "Metadata / File Data PDUs only, no EOF, positive ACK timer and counter untouched "
+  "(C04_source_served_nak_not_progress, from C08_nak_call).",
   "Lean 4 theorems (one-step contracts + induction over expiry times + composition to the 2N bound) + "
   "scenario enumeration",
   "§6 C04, §11", ["the 2N composition is proved for the receiver's Finished procedure and for the sender's EOF "
@@ -318,7 +320,9 @@ m("C05", "proof",
   "call's packet is a Metadata PDU — no other bytes, offset, second write or truncation; C05_wf_all_histories; "
   "C05_history_effect — FOLDED OVER EVERY HISTORY: for any sequence of operations from any well-formed state and "
   "every path, the final content is reached from the initial one by one such step per operation, in order "
-  "(Reach); C05_history_without_data — a history without File Data and Metadata PDUs leaves every file as it was "
+  "(Reach); C05_complete_file_not_discarded — the only deletion site leaves the filestore alone unless the "
+  "transaction was cancelled, the disposition is configured AND the delivery is incomplete; "
+  "C05_history_without_data — a history without File Data and Metadata PDUs leaves every file as it was "
   "or deletes it.",
   "Lean 4 theorems (Hoare triples over every method of the receiver: every-history frame and per-call write "
   "model; frame lemmas) + differential write-model oracle",
